@@ -12,6 +12,14 @@ CHECKS = {
  'C03': (E1, 'All operand-pair structures (orders 1..4 quick / 1..5 thorough, singleton modes, rank profiles, every broadcast alignment, scalar kinds, dtypes) x all arithmetic operations are executed and compared bit-for-bit (small-integer cores) or to roundoff (generic cores) with dense arithmetic; rank law and dtype checked.',
          'values are fixed generic/integer families, not enumerated (identities are polynomial in the cores); torch dense kernels trusted', '§5 C03'),
 }
+CHECKS.update({
+ 'C04': (E1, 'All rectangular operator/vector/operator structures (orders 1..3 quick / 1..4 thorough; row, column and inner sizes distinct per position; every singleton substitution; rank profiles; dense operands with 0..3 batch dims) x all operator operations compared bit-for-bit / to roundoff with the dense operator expression; product rank law and dtype checked.',
+         'values not enumerated (polynomial identities); torch dense kernels trusted', '§5 C04'),
+ 'C07': (E1, 'norm (plain/squared x autograd off/leaf/non-leaf), dot (full and over EVERY axis subset), sum (all and EVERY axis subset, int and list form), bilinear_form on all structures of order 1..4 (5 thorough) tensors and 1..3 operators, real/complex/zero, compared with dense reductions incl. result shape.',
+         'values not enumerated; scalar results accepted as 0-d/1-element tensors or numbers', '§5 C07'),
+ 'C08': (E1, 'ALL full-length index tuples over the per-mode alphabet {0,-1,mid,:,1:,0:1,::2,:-1} with 0..2 None insertions at every position and leading/trailing Ellipsis, on every structure of order 1..3 (4 thorough), plus operator (int,int)/(slice,slice) pairs and apply_mask with every 1-/2-row index matrix: shape (every axis) and bits equal dense[index].',
+         'partial index tuples (shorter than the order, no Ellipsis) not enumerated; int64 index matrices', '§5 C08'),
+})
 PENDING = {}
 ALL = ['C%02d' % i for i in range(1, 21)]
 
